@@ -441,7 +441,7 @@ func (tp *SimTransport) Dereference(c context.Context, iri *url.URL) ([]byte, er
 		rec.Res = "fault"
 		w.Derefs = append(w.Derefs, rec)
 		tp.s.logEv(Event{Srv: tp.srv.Spec.Host, Kind: "tp.Dereference", ID: id, Fault: true, Res: "err"})
-		return nil, errInjected
+		return nil, injectedErr(tp.s, msg.fault, "")
 	}
 	if isPublic(id) {
 		tp.s.violate("C02", "public-dereferenced", "tp.Dereference", "the Public collection was dereferenced by "+t.ID)
